@@ -722,7 +722,10 @@ fn writer_scenario(scenario: u32, c: &mut Choices, o: &mut Outcome) {
   // (drawn last) another task, with another waker, has used this DataWriter before: wake-ups
   // must go to the task that is waiting now, not to whoever registered first
   let other_task_first = scenario == 6 && c.chance(128);
-  o.sample = format!("scenario={scenario} queue_capacity={cap} writes={nwrites} ack_early={ack_early} other_task_first={other_task_first} schedule={sched_bytes:?}");
+  // (drawn last, scenario 7) a second matched reader that is BestEffort: it never acknowledges
+  // and is not waited for
+  let best_effort_bystander = scenario == 7 && c.chance(128);
+  o.sample = format!("scenario={scenario} queue_capacity={cap} writes={nwrites} ack_early={ack_early} other_task_first={other_task_first} best_effort_bystander={best_effort_bystander} schedule={sched_bytes:?}");
   o.digest = fnv(o.sample.as_bytes());
   let sched = Sched::new(&sched_bytes, CONSUMER);
   let (tx, rx) = mpsc::channel::<(WriterEnds, GUID)>();
@@ -754,6 +757,10 @@ fn writer_scenario(scenario: u32, c: &mut Choices, o: &mut Outcome) {
       );
       if scenario == 7 {
         writer.update_reader_proxy(&rig::reader_proxy_for(remote_reader, rig::node_locator(91), &writer_qos()), &writer_qos());
+        if best_effort_bystander {
+          let be = GUID::new(rig::node_prefix(92), rig::user_reader_eid(2, true));
+          writer.update_reader_proxy(&rig::reader_proxy_for(be, rig::node_locator(92), &rig::best_effort_qos()), &rig::best_effort_qos());
+        }
       }
       let _ = tx.send((ends, guid));
       sched::install(&p_sched, PRODUCER);
@@ -928,7 +935,7 @@ fn writer_scenario(scenario: u32, c: &mut Choices, o: &mut Outcome) {
         if scenario == 6 {
           format!("the writer has emptied the command queue and is idle, but the task awaiting async_write was never woken (wakes so far: {})", fw.count.load(Ordering::SeqCst))
         } else {
-          format!("every sample was acknowledged and the completion was signalled, but the task awaiting async_wait_for_acknowledgments was never woken (wakes so far: {})", fw.count.load(Ordering::SeqCst))
+          format!("the reliable reader has acknowledged every sample and the writer is idle, but the task awaiting async_wait_for_acknowledgments was never woken (wakes so far: {})", fw.count.load(Ordering::SeqCst))
         },
       ));
       break;
@@ -954,6 +961,9 @@ fn writer_scenario(scenario: u32, c: &mut Choices, o: &mut Outcome) {
   let (switches, _) = sched.summary();
   o.nontrivial = switches >= 2;
   o.label(if scenario == 6 { "async-write" } else { "async-wait-for-acks" });
+  if best_effort_bystander {
+    o.label("best-effort-bystander");
+  }
 }
 
 pub fn run(scenario: u32, choices: &[u8], _strict: bool) -> Outcome {
